@@ -20,20 +20,21 @@ const modPath = "github.com/scigolib/hdf5"
 
 // Ctx is the resolved program every rule works on.
 type Ctx struct {
-	Repo     string
-	Tier     string
-	Tags     string
-	GOARCH   string
-	Fset     *token.FileSet
-	Pkgs     []*packages.Package
-	PkgByID  map[string]*packages.Package // short id ("hdf5", "core", ...) -> package
-	Prog     *ssa.Program
-	SSAPkg   map[string]*ssa.Package // short id -> ssa package
-	CG       *callgraph.Graph
-	Funcs    map[string]*ssa.Function // short name -> function (module functions incl. anonymous)
-	AllFuncs []*ssa.Function          // module functions, deterministic order
-	nameOf   map[*ssa.Function]string
-	cache    map[string]interface{}
+	Repo       string
+	Tier       string
+	Tags       string
+	GOARCH     string
+	Fset       *token.FileSet
+	Pkgs       []*packages.Package
+	PkgByID    map[string]*packages.Package // short id ("hdf5", "core", ...) -> package
+	Prog       *ssa.Program
+	SSAPkg     map[string]*ssa.Package // short id -> ssa package
+	CG         *callgraph.Graph
+	ioFreeMemo map[*ssa.Function]bool
+	Funcs      map[string]*ssa.Function // short name -> function (module functions incl. anonymous)
+	AllFuncs   []*ssa.Function          // module functions, deterministic order
+	nameOf     map[*ssa.Function]string
+	cache      map[string]interface{}
 }
 
 // shortPkg maps an import path of the module to the short id used in constructs.
